@@ -173,13 +173,12 @@ Qed.
 Lemma auto_fixpoint : forall fl R dirs b0,
   f_baseline fl = true -> f_update fl = None ->
   effective_ratchet (f_ratchet_cli fl) (f_ratchet_cfg fl) = Some RAuto ->
-  stable_bl (rekey b0) ->
   let out1 := check_step fl R dirs (Some b0) in
   let out2 := check_step fl R dirs (o_disk out1) in
   o_stale out2 = [] /\ o_disk out2 = o_disk out1 /\ o_results out2 = o_results out1 /\
   o_exit out2 = o_exit out1.
 Proof.
-  intros fl R dirs b0 HB HU HM HSt. cbv zeta.
+  intros fl R dirs b0 HB HU HM. pose proof (rekey_is_stable b0) as HSt. cbv zeta.
   rewrite (check_step_auto fl R dirs b0 HB HU HM). cbv zeta. cbn [o_disk o_stale o_results o_exit].
   set (b := rekey b0) in *.
   set (ev := evaluated_of (map (gf b) R) dirs).
